@@ -12,10 +12,12 @@ func withWriteTx(ctx context.Context, db *sql.DB, fn func(tx *sql.Tx) error) err
 	if err != nil {
 		return err
 	}
+	verifPoint("sqlite.tx.begun")
 	if err := fn(tx); err != nil {
 		_ = tx.Rollback()
 		return err
 	}
+	verifPoint("sqlite.tx.precommit")
 	return tx.Commit()
 }
 
